@@ -503,18 +503,24 @@ func (w *world) exec(i int, st Step) {
 		go func() {
 			defer w.pushWG.Done()
 			defer cancel()
+			var params any = map[string]int{"p": st.K}
+			if st.Out == "badparams" {
+				params = map[string]any{"p": st.K, "x": make(chan int)} // cannot be marshalled
+			}
 			if st.Push == "notify" {
-				err := w.srv.Notify(ctx, "pnote", map[string]int{"p": st.K})
+				err := w.srv.Notify(ctx, "pnote", params)
 				e := Event{Kind: "pushret", K: st.K, Method: "notify", Err: errStr(err)}
 				if err == jrpc2.ErrPushUnsupported {
 					e.Flag = "unsupported"
 				} else if err == jrpc2.ErrConnClosed {
 					e.Flag = "connclosed"
+				} else if err != nil {
+					e.Flag = "othererr"
 				}
 				w.log(e)
 				return
 			}
-			rsp, err := w.srv.Callback(ctx, "pcall", map[string]int{"p": st.K})
+			rsp, err := w.srv.Callback(ctx, "pcall", params)
 			e := Event{Kind: "pushret", K: st.K, Method: "callback", Err: errStr(err)}
 			if err == jrpc2.ErrPushUnsupported {
 				e.Flag = "unsupported"
